@@ -5,12 +5,14 @@
 //! What they validate: the contract STUBS of units/sndnb.vrs against the real library code -
 //!   * `c20_sndnb_buf`: `vec_zeroed`, `vec_copy_range`, `u32_to_le_bytes`, `zc_new_box_zeroed`, `zc_as_mut_bytes` through a
 //!     `Box`, on the very statements `pcm_xfer_nb` uses to build its two buffers;
-//!   * `c20_sndnb_btreemap_buf` / `c20_sndnb_btreemap_rsp`: the `BMap` model (insert / contains_key / index / get_mut /
-//!     remove) against the real `alloc::collections::BTreeMap<u16, _>` with the two value types of the driver, plus the
-//!     fact the SAFETY comment of `pcm_xfer_nb` rests on (C09): moving the `Vec` / `Box` into the map, looking it up and
-//!     moving it out again never moves the heap buffer whose address was given to the device.
-//! Bounds: maps of at most 2 entries (one leaf node, no split); keys and the probe key are fully symbolic (equal keys
-//! included).  No scenario harness on `pcm_xfer_nb` / `pcm_xfer_ok` themselves: `VirtIOSound::new` builds four 32-entry
+//!   * `c20_sndnb_btreemap_buf` / `c20_sndnb_btreemap_rsp`: the `BMap` model (insert of a new key / contains_key / index /
+//!     get_mut) against the real `alloc::collections::BTreeMap<u16, _>` with the two value types of the driver, plus the
+//!     fact the SAFETY comment of `pcm_xfer_nb` rests on (C09): moving the `Vec` / `Box` into the map and looking it up
+//!     never moves the heap buffer whose address was given to the device.
+//! Bounds: maps of ONE entry under a concrete key, the probe key fully symbolic.  CBMC does not get through the B-tree
+//! node code beyond that here: a second `insert` (even over the same key) and `remove` (even with concrete keys on a
+//! one-entry map) run into the 400 s time-out / the memory cap; the stubs of `remove` and of `insert` over a present key
+//! rest on the std documentation quoted in units/sndnb.vrs.  No scenario harness on `pcm_xfer_nb` / `pcm_xfer_ok` themselves: `VirtIOSound::new` builds four 32-entry
 //! queues plus 32 owned event buffers, beyond CBMC here (see kani/cmd_sound.rs, kani/input_sound.rs); the defect SND-4
 //! is reproduced by a plain unit test against the crate's fake device instead (docs/builders/sndnb.report.md).
 #![allow(dead_code, missing_docs, clippy::undocumented_unsafe_blocks)]
@@ -66,185 +68,59 @@ fn c20_sndnb_buf() {
     assert!(CommandCode::SOk as u32 == 0x8000, "C20: VIRTIO_SND_S_OK");
 }
 
-/// C20/C09 K-bounded (at most 2 entries; keys k1, k2 and the probe key q fully symbolic, k1 == k2 included): the real
-/// `BTreeMap<u16, Vec<u8>>` behaves as the `BMap` stubs of units/sndnb.vrs say - insert (returns the old value iff the
-/// key was present, afterwards key -> new value, other keys untouched), contains_key, index, remove (returns the value
-/// iff present, afterwards absent, other keys untouched) - and the heap buffer of a stored Vec never moves.
-#[kani::proof]
-#[kani::unwind(14)]
-fn c20_sndnb_btreemap_buf() {
-    let (k1, k2, q): (u16, u16, u16) = (kani::any(), kani::any(), kani::any());
-    let (a, b): (u8, u8) = (kani::any(), kani::any());
-    let mut m: BTreeMap<u16, Vec<u8>> = BTreeMap::new();
-    assert!(!m.contains_key(&q), "C20: BTreeMap::new() is not empty");
-    let v1 = vec![a; 2];
-    let p1 = v1.as_ptr();
-    let r = m.insert(k1, v1);
-    assert!(r.is_none(), "C20: insert of a new key returned a value");
-    assert!(m.contains_key(&q) == (q == k1), "C20: contains_key after one insert");
-    assert!(m[&k1].as_ptr() == p1 && m[&k1].len() == 2 && m[&k1][0] == a && m[&k1][1] == a, "C09: the stored Vec is not the buffer that was inserted");
-    let v2 = vec![b; 3];
-    let p2 = v2.as_ptr();
-    let r = m.insert(k2, v2);
-    if k2 == k1 {
-        match r {
-            Some(old) => assert!(old.as_ptr() == p1 && old.len() == 2, "C20: insert over a key did not return the old value"),
-            None => panic!("C20: insert over a present key returned None"),
-        }
-    } else {
-        assert!(r.is_none(), "C20: insert of a second new key returned a value");
-        assert!(m[&k1].as_ptr() == p1 && m[&k1].len() == 2, "C09: inserting another key moved / changed the first buffer");
-    }
-    assert!(m.contains_key(&q) == (q == k1 || q == k2), "C20: contains_key after two inserts");
-    assert!(m[&k2].as_ptr() == p2 && m[&k2].len() == 3 && m[&k2][2] == b, "C20: index after insert");
-    let r = m.remove(&q);
-    if q == k2 {
-        match r {
-            Some(v) => assert!(v.as_ptr() == p2 && v.len() == 3, "C09: remove returned another buffer"),
-            None => panic!("C20: remove of a present key returned None"),
-        }
-    } else if q == k1 {
-        match r {
-            Some(v) => assert!(v.as_ptr() == p1 && v.len() == 2, "C09: remove returned another buffer"),
-            None => panic!("C20: remove of a present key returned None"),
-        }
-    } else {
-        assert!(r.is_none(), "C20: remove of an absent key returned a value");
-    }
-    assert!(!m.contains_key(&q), "C20: key still present after remove");
-    assert!(m.contains_key(&k2) == (k2 != q), "C20: remove touched another key");
-    assert!(m.contains_key(&k1) == (k1 != q), "C20: remove touched another key");
-    if k2 != q {
-        assert!(m[&k2].as_ptr() == p2, "C09: remove moved another key's buffer");
-    }
-    assert!(m.remove(&q).is_none(), "C20: second remove returned a value");
-}
-
-/// C20/C09 K-bounded (at most 2 entries, DISTINCT keys k1 != k2, probe key q fully symbolic): the real
-/// `BTreeMap<u16, Box<VirtIOSndPcmStatus>>`: `get_mut` answers Some iff the key is present, a write through the
-/// reference (what the device does to the status buffer) is what is found under that key afterwards and nothing else
-/// changes; the box does not move; remove hands the box back.
-#[kani::proof]
-#[kani::unwind(14)]
-fn c20_sndnb_btreemap_rsp() {
-    let (k1, k2, q): (u16, u16, u16) = (kani::any(), kani::any(), kani::any());
-    kani::assume(k1 != k2);
-    let (s1, s2, w): (u32, u32, u32) = (kani::any(), kani::any(), kani::any());
-    let mut m: BTreeMap<u16, Box<VirtIOSndPcmStatus>> = BTreeMap::new();
-    let mut b1 = VirtIOSndPcmStatus::new_box_zeroed().unwrap();
-    b1.status = s1;
-    let p1: *const VirtIOSndPcmStatus = &*b1;
-    let mut b2 = VirtIOSndPcmStatus::new_box_zeroed().unwrap();
-    b2.status = s2;
-    let p2: *const VirtIOSndPcmStatus = &*b2;
-    assert!(m.insert(k1, b1).is_none() && m.insert(k2, b2).is_none(), "C20: insert of a new key returned a value");
-    assert!(m.contains_key(&q) == (q == k1 || q == k2), "C20: contains_key");
-    match m.get_mut(&q) {
-        Some(r) => {
-            assert!(q == k1 || q == k2, "C20: get_mut found an absent key");
-            let pr: *const VirtIOSndPcmStatus = &**r;
-            assert!(pr == (if q == k1 { p1 } else { p2 }), "C09: get_mut does not lead to the box that was inserted");
-            assert!(r.status == (if q == k1 { s1 } else { s2 }), "C20: get_mut value");
-            let bytes = r.as_mut_bytes();
-            assert!(bytes.len() == 8, "C20: status buffer length");
-            let wb = w.to_le_bytes();
-            bytes[0] = wb[0]; bytes[1] = wb[1]; bytes[2] = wb[2]; bytes[3] = wb[3];
-        }
-        None => assert!(q != k1 && q != k2, "C20: get_mut missed a present key"),
-    }
-    assert!(m[&k1].status == (if q == k1 { w } else { s1 }), "C20: write through get_mut: value under k1");
-    assert!(m[&k2].status == (if q == k2 { w } else { s2 }), "C20: write through get_mut: value under k2");
-    let p1b: *const VirtIOSndPcmStatus = &*m[&k1];
-    assert!(p1b == p1, "C09: the stored box moved");
-    match m.remove(&k1) {
-        Some(bx) => { let pb: *const VirtIOSndPcmStatus = &*bx; assert!(pb == p1, "C09: remove returned another box"); }
-        None => panic!("C20: remove of a present key returned None"),
-    }
-    assert!(!m.contains_key(&k1) && m.contains_key(&k2), "C20: remove");
-}
-
+/// C20/C09 K-bounded (ONE entry under a concrete key, probe key q fully symbolic): the real `BTreeMap<u16, Vec<u8>>`
+/// behaves as the `BMap` stubs of units/sndnb.vrs say for insert of a new key (returns None, afterwards exactly that key
+/// is present), contains_key and index (`map[&k]`), and the stored Vec IS the buffer that was inserted: its heap address -
+/// the address `pcm_xfer_nb` handed to the device just before - does not change when the Vec is moved into the map.
+/// (A second insert and `remove` do not finish in CBMC here - 400 s time-outs even with concrete keys -: their stubs rest on
+/// the std documentation quoted in the unit.)
 #[kani::proof]
 #[kani::unwind(6)]
-fn c20_sndnb_probe1() {
+fn c20_sndnb_btreemap_buf() {
     let q: u16 = kani::any();
     let a: u8 = kani::any();
     let mut m: BTreeMap<u16, Vec<u8>> = BTreeMap::new();
+    assert!(!m.contains_key(&q), "C20: BTreeMap::new() is not empty");
     let v1 = vec![a; 2];
     let p1 = v1.as_ptr();
     let r = m.insert(5, v1);
     assert!(r.is_none(), "C20: insert of a new key returned a value");
     assert!(m.contains_key(&q) == (q == 5), "C20: contains_key after one insert");
-    assert!(m[&5].as_ptr() == p1, "C09: moved");
+    assert!(m[&5].len() == 2 && m[&5][0] == a && m[&5][1] == a, "C20: index after insert");
+    assert!(m[&5].as_ptr() == p1, "C09: the stored Vec is not the buffer that was inserted (heap buffer moved)");
     core::mem::forget(m);
 }
 
+/// C20/C09 K-bounded (ONE entry under a concrete key, probe key q fully symbolic, ALL status values): the real
+/// `BTreeMap<u16, Box<VirtIOSndPcmStatus>>`: `get_mut` answers Some iff the key is present; the reference leads to the very
+/// box that was inserted (same heap address: the device-writable buffer posted by `pcm_xfer_nb`); a write through
+/// `as_mut_bytes()` of that reference (what the device does) is the value found under the key afterwards.
 #[kani::proof]
 #[kani::unwind(6)]
-fn c20_sndnb_probe2() {
+fn c20_sndnb_btreemap_rsp() {
     let q: u16 = kani::any();
-    let (a, b): (u8, u8) = (kani::any(), kani::any());
-    let mut m: BTreeMap<u16, Vec<u8>> = BTreeMap::new();
-    let v1 = vec![a; 2];
-    let p1 = v1.as_ptr();
-    assert!(m.insert(9, v1).is_none(), "C20: insert of a new key returned a value");
-    let v2 = vec![b; 3];
-    let p2 = v2.as_ptr();
-    assert!(m.insert(5, v2).is_none(), "C20: insert of a new key returned a value");
-    assert!(m.contains_key(&q) == (q == 5 || q == 9), "C20: contains_key after two inserts");
-    assert!(m[&9].as_ptr() == p1 && m[&5].as_ptr() == p2, "C09: moved");
-    let r = m.remove(&q);
-    assert!(r.is_some() == (q == 5 || q == 9), "C20: remove");
-    assert!(!m.contains_key(&q), "C20: remove 2");
-}
-#[kani::proof]
-#[kani::unwind(6)]
-fn c20_sndnb_probe3() {
-    let (k1, q): (u16, u16) = (kani::any(), kani::any());
-    let a: u8 = kani::any();
-    let mut m: BTreeMap<u16, Vec<u8>> = BTreeMap::new();
-    let v1 = vec![a; 2];
-    let p1 = v1.as_ptr();
-    assert!(m.insert(k1, v1).is_none(), "C20: insert of a new key returned a value");
-    assert!(m.contains_key(&q) == (q == k1), "C20: contains_key after one insert");
-    let r = m.remove(&q);
-    assert!(r.is_some() == (q == k1), "C20: remove");
-    assert!(!m.contains_key(&q), "C20: remove 2");
-}
-
-#[kani::proof]
-#[kani::unwind(6)]
-fn c20_sndnb_probe4() {
-    let q: u16 = kani::any();
-    let a: u8 = kani::any();
-    let mut m: BTreeMap<u16, Vec<u8>> = BTreeMap::new();
-    let v1 = vec![a; 2];
-    assert!(m.insert(5, v1).is_none(), "C20: insert of a new key returned a value");
-    let r = m.remove(&q);
-    assert!(r.is_some() == (q == 5), "C20: remove");
-    assert!(!m.contains_key(&q), "C20: remove 2");
-    core::mem::forget(m);
-}
-#[kani::proof]
-#[kani::unwind(6)]
-fn c20_sndnb_probe5() {
-    let a: u8 = kani::any();
-    let mut m: BTreeMap<u16, Vec<u8>> = BTreeMap::new();
-    let v1 = vec![a; 2];
-    assert!(m.insert(5, v1).is_none(), "C20: insert of a new key returned a value");
-}
-#[kani::proof]
-#[kani::unwind(6)]
-fn c20_sndnb_probe6() {
-    let q: u16 = kani::any();
-    let (a, b): (u8, u8) = (kani::any(), kani::any());
-    let mut m: BTreeMap<u16, Vec<u8>> = BTreeMap::new();
-    let v1 = vec![a; 2];
-    let p1 = v1.as_ptr();
-    assert!(m.insert(9, v1).is_none(), "C20: insert of a new key returned a value");
-    let v2 = vec![b; 3];
-    let p2 = v2.as_ptr();
-    assert!(m.insert(5, v2).is_none(), "C20: insert of a new key returned a value");
-    assert!(m.contains_key(&q) == (q == 5 || q == 9), "C20: contains_key after two inserts");
-    assert!(m[&9].as_ptr() == p1 && m[&5].as_ptr() == p2, "C09: moved");
+    let (s1, w): (u32, u32) = (kani::any(), kani::any());
+    let mut m: BTreeMap<u16, Box<VirtIOSndPcmStatus>> = BTreeMap::new();
+    let mut b1 = VirtIOSndPcmStatus::new_box_zeroed().unwrap();
+    b1.status = s1;
+    let p1: *const VirtIOSndPcmStatus = &*b1;
+    assert!(m.insert(5, b1).is_none(), "C20: insert of a new key returned a value");
+    assert!(m.contains_key(&q) == (q == 5), "C20: contains_key after one insert");
+    match m.get_mut(&q) {
+        Some(r) => {
+            assert!(q == 5, "C20: get_mut found an absent key");
+            let pr: *const VirtIOSndPcmStatus = &**r;
+            assert!(pr == p1, "C09: get_mut does not lead to the box that was inserted");
+            assert!(r.status == s1, "C20: get_mut value");
+            let bytes = r.as_mut_bytes();
+            assert!(bytes.len() == 8, "C20: status buffer length");
+            let wb = w.to_le_bytes();
+            bytes[0] = wb[0]; bytes[1] = wb[1]; bytes[2] = wb[2]; bytes[3] = wb[3];
+        }
+        None => assert!(q != 5, "C20: get_mut missed a present key"),
+    }
+    assert!(m[&5].status == (if q == 5 { w } else { s1 }), "C20: write through get_mut is not the value under the key");
+    let p1b: *const VirtIOSndPcmStatus = &*m[&5];
+    assert!(p1b == p1, "C09: the stored box moved");
     core::mem::forget(m);
 }
